@@ -141,36 +141,44 @@ def run(chk):
         base_root = os.path.join(tmp, 'base')
         shutil.copytree(repo, base_root, ignore=shutil.ignore_patterns('target', '.git'))
         rc0, out0, base_keys = run_on(base_root, pid, tmp, 'base')
-        for name, kind, (how, what) in cases:
-            root = os.path.join(tmp, 'm')
-            shutil.rmtree(root, ignore_errors=True)
+        def one(case):
+            idx, (name, kind, (how, what)) = case
+            root = os.path.join(tmp, 'm%d' % idx)
             shutil.copytree(base_root, root)
             status = None
-            if how == 'edits':
-                for ed in what:
-                    p = os.path.join(root, ed['file'])
-                    t = open(p).read()
-                    if t.count(ed['old']) < 1:
-                        status = 'skipped (anchor not in this tree)'
-                        break
-                    open(p, 'w').write(t.replace(ed['old'], ed['new'], 1))
-            else:
-                r = subprocess.run('git init -q . && git apply %s' % what, cwd=root, shell=True,
-                                   stdout=subprocess.PIPE, stderr=subprocess.STDOUT)
-                if r.returncode != 0:
-                    status = 'skipped (patch does not apply to this tree)'
-            if status is None:
-                rc, out, keys = run_on(root, pid, tmp, 'm')
-                if 'does not compile' in out:
-                    status = 'skipped (does not compile on this tree)'
-                elif kind == 'break':
-                    status = 'detected' if (keys - base_keys) else 'NOT DETECTED'
+            try:
+                if how == 'edits':
+                    for ed in what:
+                        p = os.path.join(root, ed['file'])
+                        t = open(p).read()
+                        if t.count(ed['old']) < 1:
+                            status = 'skipped (anchor not in this tree)'
+                            break
+                        open(p, 'w').write(t.replace(ed['old'], ed['new'], 1))
                 else:
-                    status = 'silent' if keys == base_keys and 'CHECKER-ERROR' not in out else 'FALSE ALARM'
-            results['edits'].append({'case': name, 'kind': kind, 'result': status})
-            chk.evals()
-            if status in ('NOT DETECTED', 'FALSE ALARM'):
-                print('note (thorough): checker self-test %s: %s' % (name, status))
+                    r = subprocess.run('git init -q . && git apply %s' % what, cwd=root, shell=True,
+                                       stdout=subprocess.PIPE, stderr=subprocess.STDOUT)
+                    if r.returncode != 0:
+                        status = 'skipped (patch does not apply to this tree)'
+                if status is None:
+                    rc, out, keys = run_on(root, pid, tmp, 'm%d' % idx)
+                    if 'does not compile' in out:
+                        status = 'skipped (does not compile on this tree)'
+                    elif kind == 'break':
+                        status = 'detected' if (keys - base_keys) else 'NOT DETECTED'
+                    else:
+                        status = 'silent' if keys == base_keys and 'CHECKER-ERROR' not in out else 'FALSE ALARM'
+            finally:
+                shutil.rmtree(root, ignore_errors=True)
+                shutil.rmtree(os.path.join(tmp, 'out-m%d' % idx), ignore_errors=True)
+            return {'case': name, 'kind': kind, 'result': status}
+        from concurrent.futures import ThreadPoolExecutor
+        with ThreadPoolExecutor(5) as ex:
+            for res in ex.map(one, list(enumerate(cases))):
+                results['edits'].append(res)
+                chk.evals()
+                if res['result'] in ('NOT DETECTED', 'FALSE ALARM'):
+                    print('note (thorough): checker self-test %s: %s' % (res['case'], res['result']))
     finally:
         shutil.rmtree(tmp, ignore_errors=True)
     det = sum(1 for e in results['edits'] if e['result'] == 'detected')
